@@ -149,6 +149,24 @@ def main(tier, seed):
             cls = mdl.tld_class_of(d)
             if cls not in ("INVALID", "NOT_FQDN"):
                 real.append((b"u@" + d, "class", cls))
+    # reserved words at every label position of 3- and 4-label names: only the last label (or the last two for example.com/net/org)
+    # may decide; the governing bit of example.mail.com is GENERIC
+    from .. import words
+    for w in words.RESERVED_WORDS:
+        for d in (w + b".mail.com", w + b".a.b.org", b"mail." + w + b".x.net", w + b"." + w + b".info", b"a." + w + b".co.uk", w + b".example.museum",
+                  w + b".com.de", b"www.my-" + w + b".com", w + b"-a.b.org"):
+            cls = mdl.tld_class_of(d)
+            if cls not in ("INVALID", "NOT_FQDN"):
+                real.append((b"u@" + d, "class", cls))
+    # IDNA dot variants and fullwidth spellings in front of TLDs of every class (mode 6531 classifies the converted name)
+    for cls, names in sorted(bycls.items()):
+        n = sorted(names, key=len)[0]
+        if n.startswith(b"xn--") or not n.isalpha():
+            continue
+        for sep in ("\u3002", "\uff0e", "\uff61"):
+            real.append((b"u@mail" + sep.encode("utf-8") + n, "class6531", cls))
+        fw = "".join(chr(0xff00 + c - 0x20) for c in n)
+        real.append((b"u@mail." + fw.encode("utf-8"), "class6531", cls))
     for d in (b"a.zzzzzz", b"a.comm", b"mail.co1"):
         real.append((b"u@" + d, "unlisted", None))
     for d in (b"pppppp", b"com", b"mailhost"):
